@@ -179,3 +179,35 @@ def calc_model(run, prop):
     run.extra["model_bounds"] = [dict(ntaxa=b[0], maxtrees=b[1], pattern=b[2]) for b in bounds]
     cases_path, n = emit_cases(run, prop, outs)
     replay_cases(run, prop, cases_path, n, "replay-calc", "TraceCalc.tla", pipelines.CALC_CFG % ('"%s"' % prop))
+
+
+# ------------------------------------------------------------------------------------------------
+# Parsimony: ParsModel.tla
+
+PARS_MODEL = {
+    # quick [(ntips, nstates, ambiguous)], thorough [...]
+    "C12": ([(3, 3, True), (4, 3, False), (4, 2, True)], [(3, 3, True), (4, 4, False), (4, 3, True), (5, 3, False), (5, 2, True)]),
+}
+
+PARS_MODEL_CFG = """SPECIFICATION Spec
+CONSTANTS
+  NTips = %d
+  NStates = %d
+  Ambiguous = %s
+  Emit = TRUE
+INVARIANTS StepsAreMinimal RootingIndependent TwoPassMPRIsDefinition DownpassIsMPR NarrowedSetsInsideMPR TipsUnaltered UnambiguousIsOptimal EmitCase
+CHECK_DEADLOCK FALSE
+"""
+
+
+def pars_model(run, prop="C12"):
+    import pipelines
+    quick, thorough = PARS_MODEL[prop]
+    bounds = quick if run.tier == "quick" else thorough
+    outs = []
+    for bi, (nt, ns, amb) in enumerate(bounds):
+        cfg = PARS_MODEL_CFG % (nt, ns, "TRUE" if amb else "FALSE")
+        outs.append(vk.run_model(run, "ParsModel-%d" % bi, "ParsModel.tla", cfg, workers=vk.NCPU, heap="8g"))
+    run.extra["model_bounds"] = [dict(ntips=b[0], nstates=b[1], ambiguous_tip_sets=b[2]) for b in bounds]
+    cases_path, n = emit_cases(run, prop, outs)
+    replay_cases(run, prop, cases_path, n, "replay-calc", "TraceCalc.tla", pipelines.CALC_CFG % ('"%s"' % prop))
